@@ -180,6 +180,15 @@ def run_case(case):
         # molecule of one fragment whose true molecule has more copies than the cap allows
         return bool(cap) and len(ids) == 1 and class_size.get(truths[ids[0]].get('key'), 0) > cap
 
+    def check_overflow_claim(ids, label):
+        # a fragment may be turned away as surplus only when its own molecule is full: with exact matching (hamming 0, radius 0) that is
+        # when its true molecule has more copies than the cap
+        if d == 0 and radius == 0 and method != 'plain' and cap and len(ids) == 1 and truths[ids[0]].get('key') and \
+                class_size.get(truths[ids[0]]['key'], 0) <= cap:
+            acc.violate('fragment-turned-away-although-its-molecule-is-not-full',
+                        f'{label}: fragment {ids[0]} of true molecule {truths[ids[0]]["key"]} ({class_size[truths[ids[0]]["key"]]} copies) was emitted as surplus '
+                        f'of a capped molecule although max_associated_fragments={cap} ({cfg})', dict(wit, fragment=ids[0]))
+
     def check_partition(groups, label, overflow_ids):
         """groups: list of lists of ids (molecules of valid fragments)"""
         acc.evals += 1
@@ -257,6 +266,7 @@ def run_case(case):
                     if 'overflow' in rr or is_overflow(ids):
                         overflow_ids.update(ids)
                         acc.count('cap:overflow_molecules')
+                        check_overflow_claim(ids, 'api')
                         if len(ids) != 1:
                             acc.violate('overflow-molecule-not-single', f'overflow molecule with {len(ids)} fragments', wit)
                         continue
@@ -290,7 +300,7 @@ def run_case(case):
             for mech, desc in obs.bad[:6]:
                 acc.violate(mech, f'cli write_tags post-condition: {mech} on molecule {desc} ({cfg})', dict(wit, molecule=desc))
             obs.bad.clear()
-            g1 = check_tagged_bam(acc, out1, truths, cfg, wit, 'cli', check_partition, cap, is_overflow)
+            g1 = check_tagged_bam(acc, out1, truths, cfg, wit, 'cli', check_partition, cap, is_overflow, check_overflow_claim)
             out2 = os.path.join(dd, 'retagged.bam')
             cmd2 = [out1, '-o', out2, '-method', method, '-umi_hamming_distance', str(d)]
             if method == 'chic' and radius:
@@ -300,7 +310,7 @@ def run_case(case):
             with contextlib.redirect_stdout(io.StringIO()), contextlib.redirect_stderr(io.StringIO()), T.instrumented(eject_every=eject_every):
                 run_multiome_tagging_cmd(cmd2)
             acc.count('history:retagged')
-            g2 = check_tagged_bam(acc, out2, truths, cfg, wit, 'retag', check_partition, cap, is_overflow)
+            g2 = check_tagged_bam(acc, out2, truths, cfg, wit, 'retag', check_partition, cap, is_overflow, check_overflow_claim)
             # greedy clustering with hamming>0 / radius>0 depends on arrival order (ties are re-ordered by the sort): only exact mode must be idempotent
             if g1 is not None and g2 is not None and not cap and d == 0 and radius == 0 and set(map(frozenset, g1)) != set(map(frozenset, g2)):
                 acc.violate('retagging-changes-partition', f're-tagging the tagged BAM changed the partition ({cfg})', wit)
@@ -319,7 +329,7 @@ def run_case(case):
     return acc
 
 
-def check_tagged_bam(acc, path, truths, cfg, wit, label, check_partition, cap, is_overflow=None):
+def check_tagged_bam(acc, path, truths, cfg, wit, label, check_partition, cap, is_overflow=None, check_overflow_claim=None):
     import pysam
     by_mi = defaultdict(list)
     with pysam.AlignmentFile(path) as f:
@@ -361,6 +371,8 @@ def check_tagged_bam(acc, path, truths, cfg, wit, label, check_partition, cap, i
             acc.violate('RC-not-a-permutation', f'{label}: molecule {mi} ranks {sorted(set(ranks), key=str)} for {n} fragments ({cfg})', wit)
         if 'overflow' in rr or (is_overflow is not None and is_overflow(ids)):
             overflow_ids.update(ids)
+            if check_overflow_claim is not None:
+                check_overflow_claim(ids, label)
             continue
         if all(not truths[i]['valid'] for i in ids):
             continue
